@@ -31,6 +31,7 @@ func runC02(c *an.Ctx) string {
 	r078RequiredKeys(c, "R02.6", []string{"expr", "http/codegen"})
 	encoderNilGuards(c, "R02.7", "http/codegen/templates/request_encoder.go.tpl", "http/codegen/templates/request_builder.go.tpl")
 	r028RefsAndBases(c, "R02.8")
+	r15RequestEncoder(c) // shared with C15 (rule id R15.2): the client encodes the body with the codec of the type it announces
 	return explanationC02
 }
 
@@ -43,6 +44,7 @@ func runC03(c *an.Ctx) string {
 	r024WireKeys(c, "R03.4")
 	r035ResponseData(c)
 	r15ResponseDecoder(c) // shared with C15 (rule id R15.1): the client picks the codec of the announced type
+	r15ResponseEncoder(c) // shared with C15 (rule ids R15.1-R15.3): the server encodes with the codec of the type it announces
 	tplRangeIndexRule(c, "R03.5", "http/codegen/templates")
 	encoderNilGuards(c, "R03.6", "http/codegen/templates/response_encoder.go.tpl", "http/codegen/templates/partial/response.go.tpl")
 	return explanationC03
